@@ -311,7 +311,11 @@ func (s *Server) handleDiscovery(clientMAC net.HardwareAddr, data []byte) {
 		return
 	}
 
-	payload := data[6 : 6+hdr.Length]
+	if 6+int(hdr.Length) > len(data) {
+		s.logger.Debug("PPPoE payload length exceeds frame")
+		return
+	}
+	payload := data[6 : 6+int(hdr.Length)]
 	tags, err := ParseTags(payload)
 	if err != nil {
 		s.logger.Debug("Invalid PPPoE tags", zap.Error(err))
